@@ -276,7 +276,7 @@ PROPS = {
         theorems=['Pbc.Props.C17.only_mutable_global_is_default_allocator', 'Pbc.Props.C17.no_store_to_static_state',
                   'Pbc.Props.C17.no_local_statics', 'Pbc.Props.C17.interleaving_invisible'],
         refine=[],
-        cases=[('mt', 300, 3000, [])],
+        cases=[('mt', 300, 3000, []), ('mtwide', 120, 1000, [])],
         oracle='c17', threads=8,
     ),
     'C18': dict(
